@@ -97,6 +97,14 @@ def _run_grain(desc):
     ub0 = B0 if u0 is None else np.dot(u0, B0)
     ubi0 = np.linalg.inv(ub0)
     ref = cell if u0 is None else gm.grain(ubi0)
+    # the same reference as a grain object with a past: made for another orientation and cell, its derived matrices read, then given
+    # the reference orientation with set_ubi (what a refinement does to a grain that later serves as the strain-free reference)
+    ref_hist = ref
+    if u0 is not None:
+        ref_hist = gm.grain(np.dot(ubi0, R[1].T) * 1.03)
+        for nm in ("UB", "ub", "B", "U", "u", "mt", "rmt", "unitcell"):
+            getattr(ref_hist, nm, None)
+        ref_hist.set_ubi(ubi0.copy())
     for si, S in enumerate(stretches(tier)):
         delta = np.abs(np.linalg.eigvalsh(S) - 1).max()
         for ri, Rm in enumerate(R):
@@ -108,8 +116,11 @@ def _run_grain(desc):
                 case = {"kind": "grain", "cell": cell, "ref_orientation": u0i, "stretch": si, "rotation": ri, "m": m, "seed": seed_of()}
                 tol = 1e-10 if abs(m) < 2 else 1e-9
                 want = seth_hill(S, m)
-                Eg = g.eps_grain_matrix(ref, m)
-                Esam = g.eps_sample_matrix(ref, m)
+                ref_ = ref_hist if (si + ri) % 2 else ref
+                if ref_ is not ref:
+                    case["reference_grain_history"] = ["grain(another ubi)", "read UB, B, U, mt, rmt, unitcell", "set_ubi(reference)"]
+                Eg = g.eps_grain_matrix(ref_, m)
+                Esam = g.eps_sample_matrix(ref_, m)
                 Es[m] = Eg
                 ok = True
                 if np.abs(Eg - Eg.T).max() > 1e-12 or np.abs(Esam - Esam.T).max() > 1e-12:
@@ -121,8 +132,8 @@ def _run_grain(desc):
                 elif si == 0 and (np.abs(Eg).max() > 1e-12 or np.abs(Esam).max() > 1e-12):
                     sh.violation("strain:not-zero-for-reference-cell", case, {"grain": Eg}); ok = False
                 if ok:
-                    e6 = g.eps_grain(ref, m)
-                    s6 = g.eps_sample(ref, m)
+                    e6 = g.eps_grain(ref_, m)
+                    s6 = g.eps_sample(ref_, m)
                     w6 = [Eg[0, 0], Eg[0, 1], Eg[0, 2], Eg[1, 1], Eg[1, 2], Eg[2, 2]]
                     v6 = [Esam[0, 0], Esam[0, 1], Esam[0, 2], Esam[1, 1], Esam[1, 2], Esam[2, 2]]
                     if not (np.array_equal(e6, w6) and np.array_equal(s6, v6)):
